@@ -255,7 +255,11 @@ def run(ctx, R, tier):
     from ..report import Rules as _Rules
     from . import c19 as _c19
     R19 = _Rules("C19")
-    _c19.run(ctx, R19, tier)
+    try:
+        _c19.run(ctx, R19, tier)
+    except AnalysisError as _shared_x:
+        # the other property's own anchors are gone on this tree: its check reports that; what it produced before is still shared
+        R.note("obligations shared from C19 are incomplete on this tree: %s" % _shared_x)
     for o in R19.obs:
         if o.key in ("C19-R3|printer|fields-verbatim", "C19-R5|NameServer.register|stores-text"):
             R.add("C14-R9", o.key.split("|", 1)[1], o.desc, o.ok, o.loc, o.detail)
